@@ -30,8 +30,15 @@ const prop = "C10"
 
 type engine struct{}
 
+//go:norace
 func (engine) Name() string { return "spanlin" }
 
+// RaceProps: the properties that demand race freedom; judged by the race-detector build of this engine.
+//
+//go:norace
+func (engine) RaceProps() []string { return []string{"C10"} }
+
+//go:norace
 func TestWorker(t *testing.T) { simdrv.Worker(t, engine{}) }
 
 var tracing bool
@@ -39,6 +46,8 @@ var tracing bool
 // Pre switches Go execution tracing on or off as a function of the seed (blocks of 32 seeds), outside
 // the bubble. With tracing on, every span carries a runtime/trace task, which arms the unlock/relock
 // window in End.
+//
+//go:norace
 func (engine) Pre(r *simdrv.Run) {
 	want := (r.Tape.Seed/32)%2 == 1
 	if want == tracing {
@@ -67,6 +76,7 @@ type state struct {
 	Children int
 }
 
+//go:norace
 func (s state) enc() string {
 	keys := make([]string, 0, len(s.Attrs))
 	for k := range s.Attrs {
@@ -82,6 +92,7 @@ func (s state) enc() string {
 	return b.String()
 }
 
+//go:norace
 func (s state) clone() state {
 	c := s
 	c.Attrs = map[string]string{}
@@ -94,13 +105,13 @@ func (s state) clone() state {
 }
 
 type opIn struct {
-	Span  int
-	Kind  string
-	KVs   [][2]string // setattrs
-	Arg   string      // event / link / name / error message / status description
-	Code  int         // status code (0 unset, 1 error, 2 ok)
-	Nth   int
-	Task  string
+	Span int
+	Kind string
+	KVs  [][2]string // setattrs
+	Arg  string      // event / link / name / error message / status description
+	Code int         // status code (0 unset, 1 error, 2 ok)
+	Nth  int
+	Task string
 }
 
 type opOut struct {
@@ -114,6 +125,7 @@ type modelState struct {
 	key string
 }
 
+//go:norace
 func step(stI, inI, outI interface{}) (bool, interface{}) {
 	st := stI.(modelState).s
 	in := inI.(opIn)
@@ -207,9 +219,16 @@ type recProc struct {
 	idx int
 }
 
+//go:norace
 func (p *recProc) OnStart(context.Context, sdktrace.ReadWriteSpan) {}
-func (p *recProc) Shutdown(context.Context) error                 { return nil }
-func (p *recProc) ForceFlush(context.Context) error               { return nil }
+
+//go:norace
+func (p *recProc) Shutdown(context.Context) error { return nil }
+
+//go:norace
+func (p *recProc) ForceFlush(context.Context) error { return nil }
+
+//go:norace
 func (p *recProc) OnEnd(s sdktrace.ReadOnlySpan) {
 	w := p.w
 	id, ok := w.spanIdx[s.SpanContext().SpanID()]
@@ -227,6 +246,7 @@ func (p *recProc) OnEnd(s sdktrace.ReadOnlySpan) {
 	}
 }
 
+//go:norace
 func encSnap(s sdktrace.ReadOnlySpan, initName string) string {
 	st := state{Ended: !s.EndTime().IsZero(), Name: s.Name(), Attrs: map[string]string{}, Children: s.ChildSpanCount()}
 	if st.Name == initName {
@@ -273,9 +293,16 @@ type extraProc struct {
 	seen map[string]int
 }
 
+//go:norace
 func (p *extraProc) OnStart(context.Context, sdktrace.ReadWriteSpan) {}
-func (p *extraProc) Shutdown(context.Context) error                 { return nil }
-func (p *extraProc) ForceFlush(context.Context) error               { return nil }
+
+//go:norace
+func (p *extraProc) Shutdown(context.Context) error { return nil }
+
+//go:norace
+func (p *extraProc) ForceFlush(context.Context) error { return nil }
+
+//go:norace
 func (p *extraProc) OnEnd(s sdktrace.ReadOnlySpan) {
 	p.seen[s.Name()]++
 	simrt.Yield(simdrv.PtStub) // a processor takes its time: the End that called it may be overtaken here
@@ -297,6 +324,7 @@ type planOp struct {
 	sleep bool
 }
 
+//go:norace
 func (engine) Body(r *simdrv.Run) {
 	w := &world{r: r, spanIdx: map[trace.SpanID]int{}, curEnd: map[string]*opOut{}, endRets: map[int][]uint64{}}
 	nSpans := 1 + r.Cfg(3)
